@@ -572,6 +572,12 @@ class Interp:
     def native_call(self, fn, args, kwargs, node=None):
         if contains_symbolic(list(args)) or contains_symbolic(list(kwargs.values())):
             self.outside(f"native call {getattr(fn, '__name__', fn)} with symbolic arguments", node)
+        if getattr(fn, "__name__", "") in ("fromkeys", "list", "tuple", "join", "enumerate", "zip", "iter", "next", "extend", "map", "filter", "dict"):
+            for a in list(args) + list(kwargs.values()):
+                if isinstance(a, (set, frozenset)) and len(a) > 1 and any(isinstance(x, str) for x in a):
+                    # a builtin that consumes the set in iteration order (dict.fromkeys, list, tuple, update, join ...):
+                    # the order of a set of str depends on PYTHONHASHSEED
+                    self.ctx.events.append(("iter-set-of-str", tuple(sorted(map(str, a)))))
         try:
             return fn(*args, **kwargs)
         except (OutsideSubset, PyExc, Infeasible, PathEnd):
